@@ -14,8 +14,8 @@ VARIABLE i
 
 Nb(S, n) == NodeNbrs(S, n, 1)
 NbOfSet(S, D) == UNION {Nb(S, d) : d \in D}
-RSum(f(_), X) == LET q == CHOOSE q \in [1..Cardinality(X) -> X] : \A a, b \in 1..Cardinality(X) : a # b => q[a] # q[b]
-                 IN FoldL(LAMBDA acc, x : RAdd(acc, f(x)), <<0, 1>>, q)
+RECURSIVE RSum(_, _)   \* exact sum of rationals over a set (no enumeration of orderings: |X| may reach 10)
+RSum(f(_), X) == IF X = {} THEN <<0, 1>> ELSE LET x == CHOOSE x \in X : TRUE IN RAdd(f(x), RSum(f, X \ {x}))
 AvgNbrDeg(S, n) == IF Nb(S, n) = {} THEN <<0, 1>>
                    ELSE Rat(SumSet(LAMBDA m : Degree(S, m), Nb(S, n)), Cardinality(Nb(S, n)))
 Triangles(S, n) == Cardinality({p \in Nb(S, n) \X Nb(S, n) : p[1] < p[2] /\ p[2] \in Nb(S, p[1])})
